@@ -408,6 +408,9 @@ func genC13(e *emitter, r *rng, tier string) {
 		}
 		ex := r.pick([]int{-5, -1, 0, 1, 7, minInt, maxInt})
 		emit3(fmt.Sprintf("T:%s:%s:%d", digitsCSV(f), digitsCSV(rep), ex), 3*(fl+rl)+4)
+		if r.coin(40) { // the two lists are windows of one caller buffer
+			emit3(fmt.Sprintf("TS:%s:%s:%d", digitsCSV(f), digitsCSV(rep), ex), 3*(fl+rl)+4)
+		}
 		e.count("C13.test")
 		if r.coin(50) {
 			emit3(fmt.Sprintf("F:%s:%d", digitsCSV(f), ex), fl+3)
@@ -417,8 +420,8 @@ func genC13(e *emitter, r *rng, tier string) {
 	// NewNumber(g): streams that end, misbehave after or instead of the end marker, start badly
 	for i := 0; i < n/4; i++ {
 		length := blockLengths[r.intn(len(blockLengths))]
-		ill := r.intn(2)
-		first := r.pick([]int{-99, -99, -99, 0, 10, -1, -5, 12})
+		ill := r.intn(6)
+		first := r.pick([]int{-99, -99, -99, 0, 10, -1, -5, 12, 256, 65541})
 		desc := fmt.Sprintf("G:%d:%d:%d", length, r.rangeInt(-3, 4), ill)
 		if first != -99 {
 			desc += fmt.Sprintf(":%d", first)
